@@ -159,6 +159,13 @@ def run(ctx):
     except Skip:
         pass
 
+    # the throttle lives in a Changeable: a run-time change must actually be stored (R02.4 reads it freshly)
+    try:
+        from . import c13 as _c13p
+        _c13p.changeable_primitives(ctx, "R02.4")
+    except Skip:
+        pass
+
     # ---- R02.6
     P = "watchexec_events::event::Priority"
     adt = ctx.facts.find_adt(P)
